@@ -472,8 +472,13 @@ func (h *hand) actionEffects(pre, gs *pf.GameState, op GameOp, actor int) {
 			h.viol("C11", "check-fold-pass-moved-chips", a)
 		}
 	case "call":
-		if !(p.StackSize == 0 || p.Wager == cw1) || p.Wager < pp.Wager {
-			h.viol("C11", "call-not-level", fmt.Sprintf("seat %d wager %d, to match %d, stack %d", actor, p.Wager, cw1, p.StackSize))
+		// level with the wager to match (a call tops up to one big blind when a short blind stands)
+		want := cw0
+		if gs.Meta.Blind.BB > want {
+			want = gs.Meta.Blind.BB
+		}
+		if !(p.StackSize == 0 || (p.Wager == cw1 && p.Wager == want)) || p.Wager < pp.Wager {
+			h.viol("C11", "call-not-level", fmt.Sprintf("seat %d wager %d, to match %d (was %d, big blind %d), stack %d", actor, p.Wager, cw1, cw0, gs.Meta.Blind.BB, p.StackSize))
 		}
 	case "bet":
 		if op.Amt > 0 && op.Amt < pp.StackSize {
@@ -711,6 +716,8 @@ func (h *hand) probe() {
 		if !legal {
 			if err == nil {
 				h.o.Violate("C04", "illegal-operation-accepted", what, GameCase{h.cfg, append(append([]GameOp{}, h.ops...), op)})
+				// C06: the hand waits for a single thing
+				h.o.Violate("C06", "operation-other-than-the-expected-one-accepted", what, GameCase{h.cfg, append(append([]GameOp{}, h.ops...), op)})
 			}
 			if !same {
 				h.o.Violate("C04", "illegal-operation-changed-state", what, GameCase{h.cfg, append(append([]GameOp{}, h.ops...), op)})
